@@ -59,6 +59,19 @@ def make_case(i, rng, tier):
         if vs:
             return common.with_variants(common.mk_case(rng, inp, inp["data"], []), vs[:400])
     data = inp["data"]
+    if rng.random() < 0.1:
+        # several regions overrun at once (by one field, by different amounts), or a size fault inside an anticipated one:
+        # what was consumed is the rest of the region the error names, however many regions inside it ended earlier
+        fc = common.nested_chain_fault(rng, inp, o) if rng.random() < 0.7 else None
+        if fc is None:
+            f2 = F.fault_nested_pair(data, o, rng) if rng.random() < 0.5 else F.fault_straddle(data, o, rng)
+            fc = (inp, f2[0], f2[1]) if f2 else None
+            if fc and rng.random() < 0.5:
+                fa = F.fault_append(fc[1], o, rng)
+                if fa:
+                    fc = (inp, fa[0], fc[2] + [fa[1]])
+        if fc:
+            return common.mk_case(rng, fc[0], fc[1], fc[2])
     r = rng.random()
     f = None
     if r < 0.5 and o.sizefields:
